@@ -323,7 +323,45 @@ impl SubCheckT for WellFormed {
             prop_oneof![2 => Just(None), 6 => (1u16..=32).prop_map(Some)],
             proptest::collection::vec(sop_strategy_ext(true, true, true), 0..=24),
         );
-        (prop_oneof![12 => general.boxed(), 1 => wide.boxed(), 1 => sparse.boxed()], crate::props::c03::embed_strategy())
+        // products of wide nodes: two or three dense functions on a vtree whose root has six variables on the left and
+        // two on the right, combined with each other (and with the results) by the binary and ternary operations: the
+        // element lists that reach compression have dozens to a few hundred entries with many equal and complementary subs
+        let product = (
+            (proptest::collection::vec(any::<u16>(), 12), proptest::collection::vec(any::<u16>(), 12)).prop_map(|(keys, mut splits)| {
+                splits[0] &= !1;
+                VtreeCase { k: 8, keys, kind: 4, splits, stride: 1, offset: 0 }
+            }),
+            prop_oneof![2 => Just(None), 6 => (1u16..=32).prop_map(Some)],
+            (
+                proptest::collection::vec(any::<[u64; 4]>(), 2..=3),
+                proptest::collection::vec((0u8..7, any::<u8>(), any::<u8>(), any::<u8>()), 2..=8),
+                proptest::collection::vec(sop_strategy_ext(true, true, false), 0..=4),
+            )
+                .prop_map(|(dense, combos, tail)| {
+                    let base = 2 + 8usize; // constants and the eight literals
+                    let mut ops: Vec<SOp> = dense.iter().map(|b| SOp::Dense(*b)).collect();
+                    let mut len = base + ops.len();
+                    // raw index that `pick` maps to pool entry j when the pool has `len` entries
+                    let raw = |j: usize, len: usize| -> u16 { (((j << 16) + len - 1) / len).min(0xFFFF) as u16 };
+                    for (kind, a, b, c) in combos {
+                        let span = len - base;
+                        let (x, y, z) = (base + a as usize % span, base + b as usize % span, base + c as usize % span);
+                        let (x, y, z) = (raw(x, len), raw(y, len), raw(z, len));
+                        ops.push(match kind {
+                            0 | 1 => SOp::And(x, y),
+                            2 => SOp::Or(x, y),
+                            3 => SOp::Xor(x, y),
+                            4 => SOp::Iff(x, y),
+                            5 => SOp::Ite(x, y, z),
+                            _ => SOp::Not(x),
+                        });
+                        len += 1;
+                    }
+                    ops.extend(tail);
+                    ops
+                }),
+        );
+        (prop_oneof![12 => general.boxed(), 1 => wide.boxed(), 1 => sparse.boxed(), 1 => product.boxed()], crate::props::c03::embed_strategy())
             .prop_map(|((vt, table_cap, ops), embed)| Case {
                 embed: if vt.contiguous() { embed } else { None },
                 vt,
